@@ -17,7 +17,7 @@ from sim.terms import EX, XSD, T, key, u
 
 ID = "C10"
 LEVEL = "exploration"
-TIERS = {"quick": {"runs": 4000, "wall_cap": 600}, "thorough": {"runs": 100000, "wall_cap": 3300}}
+TIERS = {"quick": {"runs": 6400, "wall_cap": 600}, "thorough": {"runs": 100000, "wall_cap": 3300}}
 RULE = (
     "each evaluation is one seeded client session of 1-5 update requests (1-3 operations each: INSERT DATA, DELETE DATA, DELETE WHERE, "
     "DELETE/INSERT/both ... WHERE with WITH / USING / USING NAMED / GRAPH <g> / GRAPH ?g in templates and pattern, CLEAR/DROP "
